@@ -19,8 +19,8 @@ use serde::{Deserialize, Serialize};
 use serde_json::{json, Value};
 use stream::{ReadFault, SimInput, SimOutput};
 
-pub const QUICK_RUNS: u64 = 400_000;
-pub const THOROUGH_RUNS: u64 = 8_000_000;
+pub const QUICK_RUNS: u64 = 700_000;
+pub const THOROUGH_RUNS: u64 = 16_000_000;
 
 #[derive(Debug, Clone, Copy, PartialEq, Eq, Serialize, Deserialize)]
 pub enum Kind {
@@ -168,6 +168,7 @@ fn encode_one<S: WireTy>(
     };
     let enc = x.to_bytes();
     let sz = x.size();
+    ctx.note(|| format!("  encoder: recovered value from {} of {} bytes, size() = {sz}, to_bytes() = {} bytes{}", inp.pos(), orig.len(), enc.len(), if enc == orig { "" } else { " (differs from the scenario bytes)" }));
     if strict {
         if inp.pos() != orig.len() || sz != orig.len() || enc != orig {
             ctx.violate(
@@ -180,8 +181,13 @@ fn encode_one<S: WireTy>(
             );
             return Err(());
         }
-    } else if enc != orig {
-        ctx.stats.inc("probe.source_normalised_by_decoder");
+    } else {
+        // outside the strict domain the recovered value is still "a value the decoder returned
+        // for a byte string": clause 2 of the property applies to it
+        check_value::<S>(&x, &enc, sz, inp.pos(), idx, 0, what, ctx)?;
+        if enc != orig {
+            ctx.stats.inc("probe.source_normalised_by_decoder");
+        }
     }
     let mut out = SimOutput::new(fail_at);
     let r = x.encode(&mut out);
@@ -346,6 +352,47 @@ fn intersects(dirty: &[(usize, usize)], lo: usize, hi: usize) -> bool {
     lo < hi && dirty.iter().any(|(a, b)| *a < hi && lo < *b)
 }
 
+/// Property clause 2 for a value the decoder returned after consuming `consumed` bytes:
+/// consumed == size() == to_bytes().len(), and decoding its own encoding yields the same
+/// value (PartialEq and re-encoded bytes), consuming everything.
+#[allow(clippy::too_many_arguments)]
+fn check_value<D: WireTy>(v: &D, enc: &[u8], sz: usize, consumed: usize, idx: usize, nth: usize, what: &str, ctx: &mut RunCtx) -> Result<(), ()> {
+    if consumed != sz || enc.len() != sz {
+        ctx.violate(
+            "wire-size",
+            "wire-size:consumed-vs-size",
+            format!("record {idx}.{nth} ({what}): decoder consumed {consumed} bytes, the value's size() = {sz}, to_bytes().len() = {}; value re-encodes as {}", enc.len(), short(enc)),
+        );
+        return Err(());
+    }
+    let mut again = SimInput::plain(enc);
+    match D::decode(&mut again) {
+        Ok(v2) => {
+            let enc2 = v2.to_bytes();
+            if again.pos() != enc.len() || v2 != *v || enc2 != enc {
+                ctx.violate(
+                    "wire-fixed-point",
+                    "wire-fixed-point:changed",
+                    format!(
+                        "record {idx}.{nth} ({what}): decode(encode(v)) consumed {} of {} bytes, value {} v, re-encoding {} ({} bytes): v encodes as {}",
+                        again.pos(), enc.len(), if v2 == *v { "==" } else { "!=" }, if enc2 == enc { "equal" } else { "differs" }, enc2.len(), short(enc)
+                    ),
+                );
+                return Err(());
+            }
+            Ok(())
+        }
+        Err(e) => {
+            ctx.violate(
+                "wire-fixed-point",
+                "wire-fixed-point:refused",
+                format!("record {idx}.{nth} ({what}): the decoder returned a value whose own encoding it refuses with {e:?} after {} of {} bytes: {}", again.pos(), enc.len(), short(enc)),
+            );
+            Err(())
+        }
+    }
+}
+
 struct Expect<'a> {
     /// Re-encoded form the decoded value must have (None: not asserted).
     bytes: Option<&'a [u8]>,
@@ -399,39 +446,7 @@ fn decode_and_judge<D: WireTy>(
                 );
                 return Err(());
             }
-            if consumed != sz || enc.len() != sz {
-                ctx.violate(
-                    "wire-size",
-                    "wire-size:consumed-vs-size",
-                    format!("record {idx}.{nth} ({what}): decoder consumed {consumed} bytes, the value's size() = {sz}, to_bytes().len() = {}; value re-encodes as {}", enc.len(), short(&enc)),
-                );
-                return Err(());
-            }
-            let mut again = SimInput::plain(&enc);
-            match D::decode(&mut again) {
-                Ok(v2) => {
-                    let enc2 = v2.to_bytes();
-                    if again.pos() != enc.len() || v2 != v || enc2 != enc {
-                        ctx.violate(
-                            "wire-fixed-point",
-                            "wire-fixed-point:changed",
-                            format!(
-                                "record {idx}.{nth} ({what}): decode(encode(v)) consumed {} of {} bytes, value {} v, re-encoding {}: {}",
-                                again.pos(), enc.len(), if v2 == v { "==" } else { "!=" }, if enc2 == enc { "equal" } else { "differs" }, short(&enc)
-                            ),
-                        );
-                        return Err(());
-                    }
-                }
-                Err(e) => {
-                    ctx.violate(
-                        "wire-fixed-point",
-                        "wire-fixed-point:refused",
-                        format!("record {idx}.{nth} ({what}): the decoder returned a value whose own encoding it refuses with {e:?}: {}", short(&enc)),
-                    );
-                    return Err(());
-                }
-            }
+            check_value::<D>(&v, &enc, sz, consumed, idx, nth, what, ctx)?;
             if exp.clean {
                 if let Some(want) = exp.bytes {
                     if enc != want {
@@ -480,7 +495,8 @@ fn decoder_node<D: WireTy>(rec: &Record, sent: &Sent, wire: &[u8], dirty: &[(usi
         Some(ReadFault::Eof { at }) => at as usize,
         _ => usize::MAX,
     };
-    let intact1 = same && !sent.torn && !intersects(dirty, 0, sent.len1) && eof_at >= sent.len1;
+    // (expect1 is None when the bytes of a non-strict record are not a well-formed record at all)
+    let intact1 = same && !sent.torn && sent.expect1.is_some() && !intersects(dirty, 0, sent.len1) && eof_at >= sent.len1;
     let end2 = sent.len1 + sent.len2;
     let intact2 = intact1 && sent.len2 > 0 && !intersects(dirty, sent.len1, end2) && eof_at >= end2;
 
